@@ -58,7 +58,7 @@ func (P *Program) NewGen(fn *ssa.Function, spec *FuncSpec) *Gen {
 		oblNames: map[string]int{}, loopOrd: map[*ssa.BasicBlock]int{}, loops: map[*ssa.BasicBlock]*loopInfo{},
 		strConsts: map[string]string{}, localsByName: map[string][]*ssa.Alloc{}, knownNonNil: map[string]bool{},
 		out: map[*ssa.BasicBlock]*State{}, usedSpecs: map[string]bool{}, cands: map[*ssa.BasicBlock][]*candInv{},
-		joinParts: map[string][]string{}, autoInvs: map[int][]Clause{}, variantAtHead: map[*ssa.BasicBlock]string{}, heapKind: map[string]Kind{},
+		joinParts: map[string][]string{}, callCount: map[string]int{}, autoInvs: map[int][]Clause{}, variantAtHead: map[*ssa.BasicBlock]string{}, heapKind: map[string]Kind{},
 	}
 	return g
 }
@@ -204,8 +204,15 @@ func (g *Gen) run() {
 	for _, b := range order {
 		g.block(b)
 	}
-	// unbound loop clauses
+	// unbound loop clauses / call assertions
 	if g.spec != nil {
+		for i := range g.spec.CallAsserts {
+			ca := &g.spec.CallAsserts[i]
+			if !ca.bound {
+				g.oblige("bind", fmt.Sprintf("callassert %s#%d", ca.Callee, ca.N), token.NoPos, "true", "false")
+			}
+			ca.bound = false
+		}
 		for ord := range g.spec.Loops {
 			found := false
 			for _, li := range g.loops {
